@@ -63,26 +63,28 @@ def main():
         print('baseline:', meta['baseline_with_change'], '| demo with change exit', r1.returncode,
               '| without', r0.returncode)
         meta['confirmed'] = bool(base_ok and r1.returncode != 0 and r0.returncode == 0)
+        if not meta.get('confirmed'):
+            print('NOT CONFIRMED:', json.dumps(meta, indent=1)[:1500])
+            return 1
+        return run_checks(args, meta, wt, patch, src, name)
     finally:
         sh(['git', '-C', '/repo', 'worktree', 'remove', '--force', wt])
         shutil.rmtree(tmp, ignore_errors=True)
-    if not meta.get('confirmed'):
-        print('NOT CONFIRMED:', json.dumps(meta, indent=1)[:1500])
-        return 1
-    # run the checks against it
+
+
+def run_checks(args, meta, wt, patch, src, name):
+    # run the checks against the changed tree: the same patch applied in the scratch worktree,
+    # which the checks read through BARDOLPH_REPO (equivalent to applying it in /repo and undoing
+    # it afterwards, without disturbing checks that are running against /repo meanwhile)
     checks = (args.checks or args.pid).split(',')
-    st = sh(['git', '-C', '/repo', 'status', '--porcelain', '--untracked-files=no'])
-    if st.stdout.strip():
-        print('/repo is not clean; refusing to apply')
-        return 2
-    r = sh(['git', '-C', '/repo', 'apply', patch])
+    r = sh(['git', '-C', wt, 'apply', patch])
     if r.returncode:
-        print('apply to /repo failed', r.stderr)
+        print('re-apply failed', r.stderr)
         return 2
     results = {}
     try:
         for c in checks:
-            env = dict(os.environ, VERIF_SEED=args.seed)
+            env = dict(os.environ, VERIF_SEED=args.seed, BARDOLPH_REPO=wt)
             rr = sh([os.path.join(ROOT, 'check'), c, '--tier', 'quick'], cwd=ROOT, env=env, timeout=3000)
             lines = [ln for ln in rr.stdout.splitlines() if ln.startswith('VIOLATION')]
             detail = []
@@ -99,14 +101,15 @@ def main():
                           'summary': rr.stdout.strip().splitlines()[-1] if rr.stdout.strip() else rr.stderr[-300:]}
             print(c, 'exit', rr.returncode, [d.get('signature') or d.get('no_longer_checks') for d in detail])
     finally:
-        sh(['git', '-C', '/repo', 'checkout', '--', '.'])
+        sh(['git', '-C', wt, 'checkout', '--', '.'])
         # regenerate the tables from the clean tree again
         sh(['/venv/bin/python', os.path.join(ROOT, 'tools', 'extract_tables.py')])
     meta['checks'] = results
     meta['caught_by'] = [c for c, v in results.items() if v['exit'] == 1 and v['violations']]
     meta['what_was_run'] = ('scratch worktree: tools/baseline.py (186 tests) with the change, demo.py with and '
-                            'without the change; then `git -C /repo apply patch.diff`, `./check <id> --tier quick` '
-                            'for ' + ', '.join(checks) + ', `git -C /repo checkout -- .`')
+                            'without the change; then the patch applied in the scratch worktree and `BARDOLPH_REPO=<worktree> '
+                            './check <id> --tier quick` for ' + ', '.join(checks) + ' (same effect as `git -C /repo apply`, '
+                            'check, `git -C /repo checkout -- .`, without disturbing concurrent runs)')
     dst = os.path.join(ROOT, 'seeded', name)
     os.makedirs(dst, exist_ok=True)
     for f in ('patch.diff', 'demo.py', 'notes.md'):
